@@ -47,8 +47,6 @@ Record c02_state := mkC02 {
   c2_dbs : list (nat * db);                            (* most recent first: (event index, tables after it) *)
   c2_ticks : list (nat * Z) }.
 
-Definition keep {A} (n : nat) (l : list A) : list A := firstn n l.
-
 (* the database states that existed from the arrival on: every later one, and the one in force at the arrival *)
 Fixpoint dbs_since (a : nat) (l : list (nat * db)) : list db :=
   match l with
@@ -99,7 +97,7 @@ Fixpoint c02_from (cfg : config) (st : c02_state) (i : nat) (tr : list (directiv
     (flat_map (fun o => match o with
                         | OInst id _ (Some rsp) => let c := c02_check cfg st1 id rsp t in if c =? 0 then [] else [(c, i)]
                         | _ => [] end) ob ++
-     c02_from cfg (mkC02 (c2_reqs st1) (c2_verdicts st1) (c2_dbs st1) (keep 14 ((i, t) :: c2_ticks st1))) (S i) tr')%list
+     c02_from cfg (mkC02 (c2_reqs st1) (c2_verdicts st1) (c2_dbs st1) ((i, t) :: c2_ticks st1)) (S i) tr')%list
   | (DRouter id _ res, _) :: tr' =>
     c02_from cfg (mkC02 (c2_reqs st) ((id, res) :: c2_verdicts st) (c2_dbs st) (c2_ticks st)) (S i) tr'
   | (DCrash, _) :: tr' =>
@@ -108,10 +106,10 @@ Fixpoint c02_from (cfg : config) (st : c02_state) (i : nat) (tr : list (directiv
     (* the states inside the batch existed too (its transactions run one after the other) *)
     let before := match c2_dbs st with (_, d) :: _ => d | [] => db0 end in
     let inner := map (fun d => (i, d)) (rev (inter_dbs before txns (map ex_hints items))) in
-    c02_from cfg (mkC02 (c2_reqs st) (c2_verdicts st) (keep 24 ((i, snap) :: inner ++ c2_dbs st)) (c2_ticks st)) (S i) tr'
+    c02_from cfg (mkC02 (c2_reqs st) (c2_verdicts st) ((i, snap) :: inner ++ c2_dbs st) (c2_ticks st)) (S i) tr'
   | (_, ob) :: tr' =>
     match ob with
-    | [OExec _ _ snap] => c02_from cfg (mkC02 (c2_reqs st) (c2_verdicts st) (keep 24 ((i, snap) :: c2_dbs st)) (c2_ticks st)) (S i) tr'
+    | [OExec _ _ snap] => c02_from cfg (mkC02 (c2_reqs st) (c2_verdicts st) ((i, snap) :: c2_dbs st) (c2_ticks st)) (S i) tr'
     | _ => c02_from cfg st (S i) tr'
     end
   end.
